@@ -32,13 +32,15 @@ type pos struct {
 }
 
 type copyOpts struct {
-	Force     int    `json:"force,omitempty"`
-	Referrers int    `json:"referrers,omitempty"`
-	RefFilter string `json:"reffilter,omitempty"`
-	DTags     int    `json:"dtags,omitempty"`
-	InclExt   int    `json:"inclext,omitempty"`
-	Fast      int    `json:"fast,omitempty"`
-	Platforms string `json:"platforms,omitempty"` // comma separated os/arch list
+	Force      int    `json:"force,omitempty"`
+	Referrers  int    `json:"referrers,omitempty"`
+	RefFilter  string `json:"reffilter,omitempty"`
+	RefFilter2 string `json:"reffilter2,omitempty"` // a second ImageWithReferrers(filter) option (the union is copied)
+	RefTgt     int    `json:"reftgt,omitempty"`     // ImageWithReferrerTgt: referrers go to a second repository / layout
+	DTags      int    `json:"dtags,omitempty"`
+	InclExt    int    `json:"inclext,omitempty"`
+	Fast       int    `json:"fast,omitempty"`
+	Platforms  string `json:"platforms,omitempty"` // comma separated os/arch list
 }
 
 type scenario struct {
@@ -73,6 +75,8 @@ const (
 	hostB   = "reg-b.test"
 	srcRepo = "proj/src"
 	tgtRepo = "proj/tgt"
+	refRepo = "proj/refs" // referrer target (ImageWithReferrerTgt), on the target's registry
+	refPfx  = "r/"        // prefix of the names of objects in the referrer target
 	srcTag  = "v1"
 	tgtTag  = "v2"
 )
@@ -92,6 +96,8 @@ type world struct {
 	extHost          *simreg.Host
 	srcRepo, tgtRepo string
 	srcDir, tgtDir   string
+	refDir           string // referrer target layout
+	refsTgt          string // referrer target reference ("" = none)
 	refSrc, refTgt   string
 	srcIsDir         bool
 	tgtIsDir         bool
@@ -332,6 +338,20 @@ func newWorld(sc *scenario, scratch string) (*world, error) {
 		w.refTgt = base + "@" + sh.Nodes[sh.Root].Dig
 	} else {
 		w.refTgt = base + ":" + tgtTag
+	}
+
+	// ----- a separate target for the referrers
+	if sc.Opts.RefTgt != 0 {
+		switch {
+		case w.sameRepo():
+			return nil, fmt.Errorf("reftgt with samerepo is not supported")
+		case w.tgtIsDir:
+			w.refDir = filepath.Join(scratch, "tgtrefs")
+			w.refsTgt = "ocidir://" + w.refDir
+		default:
+			w.tgtHost.Repo(refRepo)
+			w.refsTgt = w.tgtHost.Name + "/" + refRepo
+		}
 	}
 
 	// ----- the host behind the urls of foreign layers
